@@ -163,6 +163,7 @@ class FnView:
         self._wd = {}
         self._ks = {}
         self._cw = None
+        self._stop = None
 
     # -- CFG ---------------------------------------------------------------------------
     def succs(self, b):
@@ -671,6 +672,20 @@ class FnView:
                 out |= self._origins_rvalue(s["rv"], p2, taint, visiting, b, i, (b, i))
         return out
 
+    def opaque(self, rx):
+        """Context manager: treat calls matching rx as opaque origins (no look-through) inside the block."""
+        view = self
+
+        class _Ctx:
+            def __enter__(self_):
+                self_.old = (view._stop, view._origin_cache)
+                view._stop = re.compile(rx)
+                view._origin_cache = {}
+
+            def __exit__(self_, *a):
+                view._stop, view._origin_cache = self_.old
+        return _Ctx()
+
     def storage_item_of_call(self, t, at=None):
         """For a cw_storage_plus call: origins of the receiver (item paths / params)."""
         if not t["args"]:
@@ -692,6 +707,8 @@ class FnView:
             return out or {Origin("load", "?", None, proj)}
         if callee.endswith("::from_residual"):
             return {Origin("err", None, "%s:bb%d" % (self.path, b))}
+        if self._stop is not None and self._stop.search(callee):
+            return {Origin("call", callee, "%s:bb%d" % (self.path, b), proj)}
         if callee == "std::boxed::box_assume_init_into_vec_unsafe" and t["args"]:
             r = self._vec_macro_elements(t, proj, taint, visiting, at)
             if r:
